@@ -114,7 +114,9 @@ pub open spec fn fids(f: Option<Vec<File>>) -> Option<Seq<int>> { match f { Some
 // ghost state of the socket: bytes handed to sendmsg so far and the record of each sendmsg that went through;
 // stream position, where each received stream byte was stored, and the record of each recvmsg that went through
 // `eof`: a receive with room for at least one byte returned 0 (end of stream); `stalled`: a send of at least one byte was accepted as 0
-pub struct Endpoint { pub wire: Ghost<Seq<u8>>, pub calls: Ghost<Seq<SendRec>>, pub pos: Ghost<int>, pub stored: Ghost<Seq<(int, int)>>, pub rcalls: Ghost<Seq<RecvRec>>, pub eof: Ghost<bool>, pub stalled: Ghost<bool> }
+pub struct Endpoint { pub wire: Ghost<Seq<u8>>, pub calls: Ghost<Seq<SendRec>>, pub pos: Ghost<int>, pub stored: Ghost<Seq<(int, int)>>, pub rcalls: Ghost<Seq<RecvRec>>, pub eof: Ghost<bool>, pub stalled: Ghost<bool>,
+    // A-RETRY-FINITE: how many more times the socket may answer `retry` (EAGAIN/EINTR/ENOBUFS/ENOMEM); used only as a termination measure
+    pub retry_budget: Ghost<nat> }
 
 impl Endpoint {
     // assumed: A-OS recvmsg stores the next n (<= capacity) stream bytes at the iovecs' addresses in order; nothing on error
@@ -127,7 +129,8 @@ impl Endpoint {
                     && final(self).stored@ =~= old(self).stored@ + deliver(flat(aviews(old(iovs)@)).subrange(0, n as int), old(self).pos@)
                     && final(self).rcalls@ == old(self).rcalls@.push(RecvRec { at: old(self).pos@, n: n as int, files: fids(f) })
                     && final(self).eof@ == (old(self).eof@ || (n == 0 && flat(aviews(old(iovs)@)).len() > 0)),
-                Err(_) => final(self).pos@ == old(self).pos@ && final(self).stored@ == old(self).stored@ && final(self).rcalls@ == old(self).rcalls@ && final(self).eof@ == old(self).eof@,
+                Err(e) => final(self).pos@ == old(self).pos@ && final(self).stored@ == old(self).stored@ && final(self).rcalls@ == old(self).rcalls@ && final(self).eof@ == old(self).eof@
+                    && (e is SocketRetry ==> final(self).retry_budget@ < old(self).retry_budget@),
             }
     { unimplemented!() }
 }
@@ -145,7 +148,8 @@ impl Endpoint {
                 Ok(n) => n <= flat(views(iovs@)).len() && final(self).wire@ == old(self).wire@ + flat(views(iovs@)).subrange(0, n as int)
                     && final(self).calls@ == old(self).calls@.push(SendRec { at: old(self).wire@.len() as int, with_fds: match fds { Some(f) => Some(f@), None => None }, n: n as int })
                     && final(self).stalled@ == (old(self).stalled@ || (n == 0 && flat(views(iovs@)).len() > 0)),
-                Err(_) => final(self).wire@ == old(self).wire@ && final(self).calls@ == old(self).calls@ && final(self).stalled@ == old(self).stalled@,
+                Err(e) => final(self).wire@ == old(self).wire@ && final(self).calls@ == old(self).calls@ && final(self).stalled@ == old(self).stalled@
+                    && (e is SocketRetry ==> final(self).retry_budget@ < old(self).retry_budget@),
             }
     { unimplemented!() }
 }
